@@ -44,6 +44,11 @@ def generate(seed, tier="quick", mode=None, **kw):
     elif mode == "c08" and r.random() < 0.12:
         # an over-long md5 salt makes the file fail at that line today; consistency must hold for what was written
         cls_list = ["text", "text", "num", "hex", "t7", "md5", "md5-long", "md5-long", "j9p"]
+    many = mode == "c08" and r.random() < 0.06
+    if many:
+        # many identities in one run (pseudonym counters with two and more digits), fixed-width AWS forms among them
+        nid = r.randint(11, 26)
+        cls_list = ["aws", "aws", "aws", "text", "num", "hex", "t7"]
     secrets = GC.gen_secrets(r, nid, classes=cls_list, words=o["words"] or (), variant_rate=(0.4 if mode == "c08" else 0.15))
     if mode == "c08" and r.random() < 0.05:
         # many secrets that differ only in an embedded AS number of the small private block, all of them listed
@@ -142,6 +147,12 @@ def generate(seed, tier="quick", mode=None, **kw):
             elif c < 0.08:
                 ln["eol"] = "\r\n"
         files.append({"path": p, "lines": lines})
+    if many and not as_embedded:
+        order = sorted(secrets)
+        r.shuffle(order)
+        first = [GC.secret_line(r, ctx, secrets, kinds=("keep",), ident=i) for i in order]
+        again = [GC.secret_line(r, ctx, secrets, kinds=("keep",), ident=i) for i in r.sample(order, 4)]
+        files[0]["lines"] = [ln for ln in first + again if ln is not None]
     if as_embedded:
         files[0]["lines"] = [GC.secret_line(r, ctx, secrets, kinds=("keep",), ident=i, templates=[
             ("snmp-server community {} ro 1", G.ALL, "keep"), ("radius-server key {}", G.NOT_NUM, "keep")]) for i in sorted(secrets)]
